@@ -3,7 +3,7 @@ From Coq Require Extraction ExtrOcamlBasic.
 From Verif Require Import Base.Str Model.Tracker.
 Extraction Language OCaml.
 Extraction "Extract/m_tracker.ml"
-  Tracker.decode Tracker.valid_utf8 Tracker.is_cb Tracker.sort4 Tracker.merge Tracker.transform
+  Tracker.decode Tracker.valid_utf8 Tracker.is_cb Tracker.sort2 Tracker.merge Tracker.transform
   Tracker.update Tracker.wf_diff Tracker.moves_ok Tracker.moves_fit Tracker.moves_same_len
   Tracker.fill Tracker.to_chars Tracker.to_lines Tracker.ai_lines Tracker.wf_lattrs
   Tracker.line_count Tracker.attr_ordered.
